@@ -91,7 +91,8 @@ class Session:
         rounds = 0
         while todo and rounds < max_reject:
             rounds += 1
-            res = C.validate_traces(self.wd, module, [p for p, _ in todo], workers=workers)
+            res = C.validate_traces(self.wd, module, [p for p, _ in todo], workers=workers if self.tier == "quick" else 14,
+                                    timeout=1800 if self.tier == "quick" else 4 * 3600)
             bypath = dict(todo)
             todo = []
             for r in res:
